@@ -4,14 +4,17 @@
 // installed (on_resume, on_atomic, on_sync); the choice hooks stay null, except in the `pure` mode where `rand` is
 // installed as a pure observer (always answers "use the built-in behaviour") to count draws.
 //
-//   c17 batch [--dump DIR] [--pre-malloc N]      reads configurations from stdin, one per line:
+//   c17 batch [--dump DIR [--dump-only KEY]] [--pre-malloc N]      reads configurations from stdin, one per line:
 //         run   <key> prog=P size=N seed=S freq=F pick=K afail=A sleep=T tick=L passes=2 reset=seed+state|seed|none
+//               [quarantine=0|1]   (1, the default: no address is reused within a run, see "address quarantine")
 //         rec   <key> prog=P2 …                  two-phase program, prints the checkpoint pair and the phase-2 digest
 //         rep   <key> prog=P2 … count=C state=Z  fresh start + SetSeed/ForwardToFaultRandomCount/SetInjectorState,
 //                                                then phase 2 only
 //       prints per run one line `digest <key> pass=<i> hash=… lines=… resumes=… injected=… rand=… spurious=… casfail=…
 //       events=<hash> result=…` (and `ckpt <key> count=… state=…` for rec).  With --dump the full trace of every
 //       pass is written to DIR/<key>.<pass>.txt (used by the check to show the first differing line).
+//   c17 sched [--seed S] [--count N]              random scheduler-level scripts, logged request by request, for the
+//                                                 differential of the whole scheduler model (`Sched.step`)
 //   c17 pure                                      prints raw decision inputs/outputs of the real decision functions
 //                                                 (BiList::GetElement, PollRandomElementFromList, Injector, weak CAS,
 //                                                 ForwardToFaultRandomCount) for the differential against the Lean model
@@ -39,6 +42,7 @@
 #include <yaclib/fault/config.hpp>
 #include <yaclib/fault/detail/atomic.hpp>
 #include <yaclib/fault/detail/fiber/bidirectional_intrusive_list.hpp>
+#include <yaclib/fault/detail/fiber/queue.hpp>
 #include <yaclib/fault/detail/fiber/scheduler.hpp>
 #include <yaclib/fault/inject.hpp>
 #include <yaclib/fault/injector.hpp>
@@ -54,6 +58,7 @@
 #include <iostream>
 #include <map>
 #include <memory>
+#include <new>
 #include <random>
 #include <sstream>
 #include <string>
@@ -67,6 +72,60 @@
 namespace yaclib::detail {
 bool ShouldFailAtomicWeak();  // src/fault/atomic.cpp
 }
+
+// ---- address quarantine -------------------------------------------------------------------------------------------
+// Whether a *stale* CAS on a pointer-valued atomic succeeds depends on whether the allocator handed a freed address out
+// again (ABA by address reuse; observed in yaclib::Strand::Submit, see notes/C17.md).  That makes a run depend on the
+// allocator's free lists, i.e. on everything the process allocated before.  With the quarantine on, blocks freed
+// during a run are not returned to the allocator until the run is over, so no address is reused within a run and
+// the comparison isolates the fault layer (and the rest of the library) from the allocator.  `quarantine=0` in a
+// configuration line turns it off (the check uses that to exhibit the allocator dependence).
+namespace {
+bool gQuarantine = false;
+void* gQuarantined = nullptr;
+std::uint64_t gQuarantinedBlocks = 0;
+
+void QuarantineFlush() {
+  while (gQuarantined != nullptr) {
+    void* next = *static_cast<void**>(gQuarantined);
+    std::free(gQuarantined);
+    gQuarantined = next;
+  }
+}
+void Release(void* p) noexcept {
+  if (p == nullptr) return;
+  if (gQuarantine) {
+    *static_cast<void**>(p) = gQuarantined;  // every block is at least one pointer wide (see operator new below)
+    gQuarantined = p;
+    ++gQuarantinedBlocks;
+  } else {
+    std::free(p);
+  }
+}
+}  // namespace
+
+void* operator new(std::size_t n) {
+  void* p = std::malloc(n < sizeof(void*) ? sizeof(void*) : n);
+  if (p == nullptr) throw std::bad_alloc{};
+  return p;
+}
+void* operator new[](std::size_t n) { return operator new(n); }
+void* operator new(std::size_t n, std::align_val_t a) {
+  std::size_t al = static_cast<std::size_t>(a);
+  std::size_t sz = (n < sizeof(void*) ? sizeof(void*) : n);
+  void* p = std::aligned_alloc(al, (sz + al - 1) / al * al);
+  if (p == nullptr) throw std::bad_alloc{};
+  return p;
+}
+void* operator new[](std::size_t n, std::align_val_t a) { return operator new(n, a); }
+void operator delete(void* p) noexcept { Release(p); }
+void operator delete[](void* p) noexcept { Release(p); }
+void operator delete(void* p, std::size_t) noexcept { Release(p); }
+void operator delete[](void* p, std::size_t) noexcept { Release(p); }
+void operator delete(void* p, std::align_val_t) noexcept { Release(p); }
+void operator delete[](void* p, std::align_val_t) noexcept { Release(p); }
+void operator delete(void* p, std::size_t, std::align_val_t) noexcept { Release(p); }
+void operator delete[](void* p, std::size_t, std::align_val_t) noexcept { Release(p); }
 
 namespace {
 
@@ -114,6 +173,7 @@ struct Rec {
 };
 
 Rec* gRec = nullptr;
+bool gDebugValues = false;  // C17_DEBUG_VALUES=1: raw words next to the dumped trace lines (diagnosis only)
 
 long long Self() {
   return gRec->Rel(yaclib::fault::Scheduler::GetId());
@@ -143,22 +203,22 @@ void InstallTraceHooks() {
     int n = std::snprintf(buf, sizeof buf, "R %lld", r.Rel(id));
     r.Line(buf, n);
   };
-  h.on_atomic = [](void*, const void* obj, int op, int os, int of, unsigned long long /*arg*/, unsigned long long expected,
+  h.on_atomic = [](void*, const void* obj, int op, int os, int of, unsigned long long arg, unsigned long long expected,
                    unsigned long long result, int ok) {
     auto& r = *gRec;
     ++r.atomics;
     // an injected spurious failure never reaches the implementation's compare_exchange_weak: the wrapper
     // (yaclib::detail::Atomic) answers it with a `load`, which is what the trace shows; the client programs count
     // them (a failed weak CAS that found the expected value)
-    (void)expected;
-    (void)result;
     if ((op == yaclib::verif::kCasWeak || op == yaclib::verif::kCasStrong) && ok == 0) ++r.casfail;
     char buf[96];
     // no object names: two objects whose lifetimes do not overlap may or may not share an address, depending on the
     // allocator's reuse pattern (heap layout), so any name derived from the address would be layout dependent
-    (void)obj;
     int n = std::snprintf(buf, sizeof buf, "A %lld %d %d.%d %d", Self(), op, os, of, ok);
     r.Line(buf, n);
+    if (r.dump != nullptr && r.on && gDebugValues) {  // diagnosis only: raw words, never hashed
+      std::fprintf(r.dump, "#   obj=%p arg=%llx expected=%llx result=%llx\n", obj, arg, expected, result);
+    }
   };
   h.on_sync = [](void*, const void* obj, int op, int res) {
     auto& r = *gRec;
@@ -393,6 +453,7 @@ struct Config {
   std::uint32_t seed = 1, freq = 16, pick = 10, afail = 13, sleep = 100, tick = 10;
   std::uint64_t count = 0;
   std::uint32_t state = 0;
+  int quarantine = 1;
 };
 
 bool ParseConfig(const std::string& line, Config& c) {
@@ -415,6 +476,7 @@ bool ParseConfig(const std::string& line, Config& c) {
     else if (k == "tick") c.tick = static_cast<std::uint32_t>(std::strtoul(v.c_str(), nullptr, 10));
     else if (k == "count") c.count = std::strtoull(v.c_str(), nullptr, 10);
     else if (k == "state") c.state = static_cast<std::uint32_t>(std::strtoul(v.c_str(), nullptr, 10));
+    else if (k == "quarantine") c.quarantine = std::atoi(v.c_str());
     else return false;
   }
   return true;
@@ -430,9 +492,11 @@ void ApplyFaultConfig(const Config& c) {
 }
 
 std::string gDumpDir;
+std::string gDumpOnly;  // dump only this key (the other configurations of the batch still run: they are its history)
 
 FILE* OpenDump(const Config& c, int pass) {
   if (gDumpDir.empty()) return nullptr;
+  if (!gDumpOnly.empty() && gDumpOnly != c.key) return nullptr;
   std::string path = gDumpDir + "/" + c.key + "." + std::to_string(pass) + ".txt";
   return std::fopen(path.c_str(), "w");
 }
@@ -452,14 +516,19 @@ void PrintDigest(const Config& c, int pass, const Rec& r, std::uint64_t injected
 }
 
 // one execution: fresh scheduler, root fiber, `body` inside the root fiber
-void InScheduler(const std::function<void()>& body) {
-  yaclib::fault::Scheduler scheduler;
-  yaclib::fault::Scheduler::Set(&scheduler);
+void InScheduler(const Config& c, const std::function<void()>& body) {
+  gQuarantine = c.quarantine != 0;
   {
-    yaclib_std::thread root{[&] { body(); }};
-    root.join();
+    yaclib::fault::Scheduler scheduler;
+    yaclib::fault::Scheduler::Set(&scheduler);
+    {
+      yaclib_std::thread root{[&] { body(); }};
+      root.join();
+    }
+    yaclib::fault::Scheduler::Set(nullptr);
   }
-  yaclib::fault::Scheduler::Set(nullptr);
+  gQuarantine = false;
+  QuarantineFlush();
 }
 
 void RunPlain(const Config& c) {
@@ -481,7 +550,7 @@ void RunPlain(const Config& c) {
     env.size = c.size;
     auto rand0 = yaclib::fiber::GetFaultRandomCount();
     auto inj0 = yaclib::GetInjectedCount();
-    InScheduler([&] {
+    InScheduler(c, [&] {
       for (auto p : prog->phase1) p(env);
       for (auto p : prog->phase2) p(env);
     });
@@ -514,7 +583,7 @@ void RunRecord(const Config& c) {
   env.size = c.size;
   auto rand_seeded = yaclib::fiber::GetFaultRandomCount();
   std::uint64_t rand_ck = 0, inj_ck = 0;
-  InScheduler([&] {
+  InScheduler(c, [&] {
     for (auto p : prog->phase1) p(env);
     // ---- checkpoint: only the root fiber exists
     auto base = Probe();
@@ -548,7 +617,7 @@ void RunReplay(const Config& c) {
   Env env;
   env.size = c.size;
   std::uint64_t rand_ck = 0, inj_ck = 0;
-  InScheduler([&] {
+  InScheduler(c, [&] {
     auto base = Probe();
     // ---- restore the recorded pair
     yaclib::SetSeed(c.seed);
@@ -720,15 +789,293 @@ int Pure(std::uint64_t vseed) {
   return 0;
 }
 
+
+// ------------------------------------------------------------------------------------------------ scheduler scripts
+// `c17 sched`: random straight-line scripts per fiber over the raw scheduler interface (InjectFault, ShouldFailAtomicWeak,
+// yield, thread creation / join, Scheduler::Sleep, FiberQueue::Wait / Wait(duration) / NotifyOne / NotifyAll).  Every call
+// is logged (`>` + request) together with what it observably did (flags, fiber switches from on_resume, timed-wait
+// results); the Lean model `Sched.step` is then run on the logged request sequence and the raw draws of a mirror engine
+// and must produce the same observations (checks/C17.py).  Each script runs in a forked child that logs into shared
+// memory: the scheduler can crash (findings D8 / D12), which the model predicts as `ub`.
+struct SOp {
+  char k;
+  int a, b;
+};
+struct SScript {
+  int id;
+  std::vector<SOp> ops;
+};
+struct SPend {
+  char kind = 0;
+  bool flagged = false, resumed = false;
+};
+struct SRun {
+  std::vector<SScript> scripts;
+  std::vector<yaclib::detail::fiber::FiberQueue*> queues;
+  std::map<unsigned long long, int> ids;  // real fiber id -> script id (ordered map, lookups only)
+  std::vector<SPend> pend;
+  std::vector<int> joiner;
+  std::vector<bool> finished;
+  std::vector<yaclib_std::thread*> threads;
+  int current = -1;
+  char* log = nullptr;
+  std::size_t pos = 0, cap = 0;
+};
+SRun* gS = nullptr;
+
+void Tok(const std::string& t) {
+  auto& s = *gS;
+  if (s.pos + t.size() + 2 >= s.cap) return;
+  std::memcpy(s.log + s.pos, t.data(), t.size());
+  s.pos += t.size();
+  s.log[s.pos++] = ' ';
+  s.log[s.pos] = 0;
+}
+
+void RunScript(int me);
+
+void SchedHooks() {
+  auto& h = yaclib::verif::gHooks;
+  h = yaclib::verif::Hooks{};
+  h.on_resume = [](void*, unsigned long long id) {
+    auto& s = *gS;
+    int g;
+    auto it = s.ids.find(id);
+    if (it == s.ids.end()) {
+      g = 0;  // only the root is resumed before its id is known
+      s.ids.emplace(id, 0);
+    } else {
+      g = it->second;
+    }
+    if (s.current >= 0) {
+      auto& p = s.pend[static_cast<std::size_t>(s.current)];
+      if (p.kind == 'I' && !p.flagged) {
+        p.flagged = true;
+        Tok("f1");
+      }
+    }
+    Tok("r" + std::to_string(g));
+    s.pend[static_cast<std::size_t>(g)].resumed = true;
+    s.current = g;
+  };
+}
+
+void RunScript(int me) {
+  auto& s = *gS;
+  auto& p = s.pend[static_cast<std::size_t>(me)];
+  auto begin = [&](char k, const std::string& req) {
+    p = SPend{};
+    p.kind = k;
+    Tok(">" + req);
+  };
+  for (auto op : s.scripts[static_cast<std::size_t>(me)].ops) {
+    switch (op.k) {
+      case 'I': {
+        begin('I', "I");
+        yaclib::InjectFault();
+        if (!p.flagged) Tok("f0");
+      } break;
+      case 'W': {
+        begin('W', "W");
+        Tok(yaclib::detail::ShouldFailAtomicWeak() ? "f1" : "f0");
+      } break;
+      case 'Y': {
+        begin('Y', "Y");
+        yaclib_std::this_thread::yield();
+      } break;
+      case 'S': {
+        begin('S', "S" + std::to_string(op.a));
+        int child = op.a;
+        auto* t = new yaclib_std::thread{[child] { RunScript(child); }};
+        s.ids.emplace(t->get_id(), child);
+        s.threads[static_cast<std::size_t>(child)] = t;
+        Tok("u");
+      } break;
+      case 'L': {
+        begin('L', "L" + std::to_string(op.a));
+        yaclib_std::this_thread::sleep_for(Ns{op.a});
+        if (!p.resumed) Tok("u");
+      } break;
+      case 'P': {
+        begin('P', "P" + std::to_string(op.a));
+        s.queues[static_cast<std::size_t>(op.a)]->Wait(yaclib::detail::fiber::NoTimeoutTag{});
+      } break;
+      case 'T': {
+        begin('T', "T" + std::to_string(op.a) + "." + std::to_string(op.b));
+        auto st = s.queues[static_cast<std::size_t>(op.a)]->Wait(Ns{op.b});
+        bool timeout = st == yaclib::detail::WaitStatus::Timeout;
+        if (p.resumed) Tok(timeout ? "t1" : "t0");
+        else Tok(timeout ? "f1" : "f0?");
+      } break;
+      case 'N': {
+        begin('N', "N" + std::to_string(op.a));
+        s.queues[static_cast<std::size_t>(op.a)]->NotifyOne();
+        Tok("u");
+      } break;
+      case 'A': {
+        begin('A', "A" + std::to_string(op.a));
+        s.queues[static_cast<std::size_t>(op.a)]->NotifyAll();
+        Tok("u");
+      } break;
+      case 'J': {
+        auto child = static_cast<std::size_t>(op.a);
+        if (s.threads[child] == nullptr) break;
+        if (!s.finished[child]) {
+          begin('U', "U");
+          s.joiner[child] = me;
+        }
+        s.threads[child]->join();
+        delete s.threads[child];
+        s.threads[child] = nullptr;
+      } break;
+      default:
+        break;
+    }
+    p.kind = 0;
+  }
+  s.finished[static_cast<std::size_t>(me)] = true;
+  if (s.joiner[static_cast<std::size_t>(me)] >= 0) {
+    Tok(">K" + std::to_string(s.joiner[static_cast<std::size_t>(me)]));
+    Tok("u");
+  }
+  p = SPend{};
+  Tok(">X");
+}
+
+// a random family of scripts: the root spawns up to three fibers (one of them may spawn a fourth)
+std::vector<SScript> GenScripts(std::mt19937_64& gen, int nq) {
+  int kids = 1 + static_cast<int>(gen() % 3);
+  bool grandchild = gen() % 3 == 0;
+  int total = 1 + kids + (grandchild ? 1 : 0);
+  std::vector<SScript> sc(static_cast<std::size_t>(total));
+  auto body = [&](int len, bool may_block) {
+    std::vector<SOp> ops;
+    for (int i = 0; i < len; ++i) {
+      auto r = gen() % 100;
+      int q = static_cast<int>(gen() % static_cast<unsigned>(nq));
+      if (r < 45) ops.push_back({'I', 0, 0});
+      else if (r < 55) ops.push_back({'W', 0, 0});
+      else if (r < 63) ops.push_back({'Y', 0, 0});
+      else if (r < 72) ops.push_back({'L', static_cast<int>(std::vector<int>{0, 1, 7, 12, 30, 95}[gen() % 6]), 0});
+      else if (r < 82) ops.push_back({'T', q, static_cast<int>(std::vector<int>{0, 3, 9, 15, 40, 200}[gen() % 6])});
+      else if (r < 86 && may_block) ops.push_back({'P', q, 0});
+      else if (r < 94) ops.push_back({'N', q, 0});
+      else ops.push_back({'A', q, 0});
+    }
+    return ops;
+  };
+  for (int f = 0; f < total; ++f) sc[static_cast<std::size_t>(f)].id = f;
+  // root: a prefix, the spawns interleaved with work, more work, wake-ups, joins
+  auto& root = sc[0].ops;
+  for (auto& o : body(static_cast<int>(gen() % 4), false)) root.push_back(o);
+  for (int k = 1; k <= kids; ++k) {
+    root.push_back({'S', k, 0});
+    for (auto& o : body(static_cast<int>(gen() % 4), false)) root.push_back(o);
+  }
+  for (auto& o : body(static_cast<int>(3 + gen() % 8), false)) root.push_back(o);
+  for (int q = 0; q < nq; ++q) root.push_back({'A', q, 0});
+  for (int k = 1; k <= kids; ++k) root.push_back({'J', k, 0});
+  for (int k = 1; k <= kids; ++k) {
+    auto& ops = sc[static_cast<std::size_t>(k)].ops;
+    for (auto& o : body(static_cast<int>(2 + gen() % 9), true)) ops.push_back(o);
+    if (grandchild && k == 1) {
+      ops.push_back({'S', kids + 1, 0});
+      for (auto& o : body(static_cast<int>(gen() % 5), true)) ops.push_back(o);
+      ops.push_back({'J', kids + 1, 0});
+    }
+  }
+  if (grandchild) sc[static_cast<std::size_t>(kids + 1)].ops = body(static_cast<int>(1 + gen() % 7), true);
+  return sc;
+}
+
+}  // namespace
+
+#include <sys/mman.h>
+#include <sys/wait.h>
+#include <unistd.h>
+
+namespace {
+
+int Sched(std::uint64_t vseed, int count) {
+  std::mt19937_64 gen{vseed * 1000003 + 29};
+  const std::size_t cap = 1 << 16;
+  char* shared = static_cast<char*>(mmap(nullptr, cap, PROT_READ | PROT_WRITE, MAP_SHARED | MAP_ANONYMOUS, -1, 0));
+  if (shared == MAP_FAILED) return 3;
+  for (int round = 0; round < count; ++round) {
+    Config c;
+    c.seed = static_cast<std::uint32_t>(gen() % 1000000);
+    c.freq = static_cast<std::uint32_t>(std::vector<int>{1, 2, 3, 5, 16}[gen() % 5]);
+    c.pick = static_cast<std::uint32_t>(std::vector<int>{1, 2, 3, 10}[gen() % 4]);
+    c.afail = static_cast<std::uint32_t>(std::vector<int>{0, 2, 3, 13}[gen() % 4]);
+    c.sleep = static_cast<std::uint32_t>(std::vector<int>{1, 3, 7, 100}[gen() % 4]);
+    c.tick = static_cast<std::uint32_t>(std::vector<int>{1, 5, 10, 10}[gen() % 4]);
+    c.state = static_cast<std::uint32_t>(gen() % (c.freq + 2));
+    const int nq = 2;
+    auto scripts = GenScripts(gen, nq);
+    shared[0] = 0;
+    std::fflush(stdout);
+    pid_t pid = fork();
+    if (pid == 0) {
+      SRun run;
+      gS = &run;
+      run.scripts = scripts;
+      run.log = shared;
+      run.cap = cap;
+      auto n = scripts.size();
+      run.pend.assign(n, SPend{});
+      run.joiner.assign(n, -1);
+      run.finished.assign(n, false);
+      run.threads.assign(n, nullptr);
+      for (int q = 0; q < nq; ++q) run.queues.push_back(new yaclib::detail::fiber::FiberQueue{});
+      SchedHooks();
+      ApplyFaultConfig(c);
+      yaclib::SetSeed(c.seed);
+      yaclib::fiber::SetInjectorState(c.state);
+      auto c0 = yaclib::fiber::GetFaultRandomCount();
+      auto* scheduler = new yaclib::fault::Scheduler{};
+      yaclib::fault::Scheduler::Set(scheduler);
+      Tok(">S0");
+      auto* root = new yaclib_std::thread{[] { RunScript(0); }};
+      (void)root;
+      Tok("idle");
+      Tok("used=" + std::to_string(yaclib::fiber::GetFaultRandomCount() - c0));
+      _exit(0);
+    }
+    int status = 0;
+    waitpid(pid, &status, 0);
+    std::string log = shared;
+    bool crashed = !(WIFEXITED(status) && WEXITSTATUS(status) == 0);
+    std::string script, outs, used = "?";
+    std::istringstream in(log);
+    std::string t;
+    std::size_t ntok = 0;
+    while (in >> t) {
+      ++ntok;
+      if (t[0] == '>') script += (script.empty() ? "" : ";") + t.substr(1);
+      else if (t.rfind("used=", 0) == 0) used = t.substr(5);
+      else outs += (outs.empty() ? "" : ",") + t;
+    }
+    if (crashed) outs += (outs.empty() ? "" : ",") + std::string("crash");
+    std::printf("SCHED freq=%u pick=%u afail=%u sleep=%u tick=%u state=%u raws=%s script=%s = %s used=%s\n", c.freq, c.pick,
+                c.afail, c.sleep, c.tick, c.state, Join(Raws(c.seed, 2 * ntok + 64)).c_str(), script.c_str(), outs.c_str(),
+                used.c_str());
+  }
+  std::printf("done\n");
+  return 0;
+}
+
 }  // namespace
 
 int main(int argc, char** argv) {
   std::string mode = argc > 1 ? argv[1] : "";
   std::uint64_t vseed = 1;
+  int count = 200;
   for (int i = 2; i < argc; ++i) {
     std::string a = argv[i];
     if (a == "--dump" && i + 1 < argc) gDumpDir = argv[++i];
+    else if (a == "--dump-only" && i + 1 < argc) gDumpOnly = argv[++i];
     else if (a == "--seed" && i + 1 < argc) vseed = std::strtoull(argv[++i], nullptr, 10);
+    else if (a == "--count" && i + 1 < argc) count = std::atoi(argv[++i]);
     else if (a == "--pre-malloc" && i + 1 < argc) {
       // perturb the heap layout: one big block and a few hundred small ones, leaked on purpose
       std::size_t n = std::strtoull(argv[++i], nullptr, 10);
@@ -740,8 +1087,10 @@ int main(int argc, char** argv) {
       }
     }
   }
+  gDebugValues = std::getenv("C17_DEBUG_VALUES") != nullptr;
   if (mode == "batch") return Batch();
   if (mode == "pure") return Pure(vseed);
-  std::fprintf(stderr, "usage: c17 batch|pure …\n");
+  if (mode == "sched") return Sched(vseed, count);
+  std::fprintf(stderr, "usage: c17 batch|pure|sched …\n");
   return 2;
 }
